@@ -20,6 +20,7 @@ def run(rep):
     rep.guard(u5, rep, w)
     rep.guard(u6, rep, w)
     rep.guard(u8, rep, w)
+    rep.guard(u9, rep, w)
     import c19
     rep.guard(c19.d1, rep, w)     # number -> string conversion is the model's (shortest round-trip) text
     rep.guard(c19.d2, rep, w)     # string -> number conversion is correctly rounded (str::parse::<f64> on the whole string)
@@ -382,3 +383,61 @@ def u8(rep, w, prop='C13'):
                 'are accepted as text' % (f.path, own or 'none recognised'), f.loc())
     if n == 0:
         raise Broken(prop, 'anchor', 'no scanner function parses hexadecimal escapes')
+
+
+DIGIT_TESTS = ('is_ascii_hexdigit', 'is_ascii_digit', 'is_digit', 'to_digit')
+
+
+def u9(rep, w, prop='C13'):
+    """`from_str_radix` (and the integer `parse`) of the standard library accept a leading sign. Where the interpreter parses digits it
+    cut out of program text - the hex digits of an escape sequence - a sign is not a digit: `"\\x+1"` must be the invalid escape the
+    reference model says it is, not the byte 1. So every such parse runs only on text whose characters were all tested to be
+    digits: a call of Iterator::all (or a loop) applying a digit-class test dominates it and its failing edge does not reach it."""
+    r = rep.rule('U9', 'an integer parse of characters cut out of program text runs only after every character was tested to be a digit (std parsers accept a sign)', floor=1)
+    c = w.yarel
+    n = 0
+    for f in sorted(c.fns.values(), key=lambda x: x.path):
+        for bi, t in f.calls():
+            name = callee_name(t) or ''
+            is_radix = name.startswith('core::num::<impl ') and name.endswith('::from_str_radix')
+            is_int_parse = False
+            if strip_generics(name) == 'core::str::<impl str>::parse':
+                tids = t['f'].get('a', [])
+                is_int_parse = bool(tids) and c.tstr(tids[0]) in ('u8', 'u16', 'u32', 'u64', 'usize', 'i8', 'i16', 'i32', 'i64', 'isize', 'u128', 'i128')
+            if not (is_radix or is_int_parse):
+                continue
+            n += 1
+            key = '%s: %s' % (f.path.replace('yarel::', ''), name.rsplit('::', 2)[-2] + '::' + name.rsplit('::', 1)[-1] if is_radix else 'str::parse')
+            dom = f.dominators().get(bi, set())
+            ok = False
+            for b in dom:
+                tb = f.blocks[b]['t']
+                if tb['t'] != 'call' or strip_generics(callee_name(tb) or '') != 'std::iter::Iterator::all':
+                    continue
+                # the predicate is a closure of this function that applies a digit-class test
+                pred_ok = False
+                for p_, g in c.fns.items():
+                    if g.kind == 'Closure' and g.parent == f.path:
+                        if any((callee_name(t2) or '').rsplit('::', 1)[-1] in DIGIT_TESTS for _, t2 in g.calls()):
+                            pred_ok = True
+                if not pred_ok:
+                    continue
+                # the result is switched on and the false edge does not reach the parse
+                nxt = tb['to']
+                sw = f.blocks[nxt]['t']
+                if sw['t'] == 'switch' and op_place(sw['d']) is not None and op_place(sw['d'])['l'] == (tb.get('dst') or {}).get('l'):
+                    zero = [x[1] for x in sw['cases'] if x[0] == 0]
+                    if zero and bi not in f.reachable_blocks(zero[0], avoid={b}) and bi in f.reachable_blocks(sw['else'], avoid={b}):
+                        ok = True
+                else:
+                    # negated first (`if !all(..)`): Not, then switch
+                    for s_ in f.blocks[nxt]['s']:
+                        rr = s_.get('r', {})
+                        if rr.get('rv') == 'un' and rr.get('op') == 'Not' and sw['t'] == 'switch':
+                            zero = [x[1] for x in sw['cases'] if x[0] == 0]
+                            if zero and bi in f.reachable_blocks(zero[0], avoid={b}) and bi not in f.reachable_blocks(sw['else'], avoid={b}):
+                                ok = True
+            r.check(ok, key, 'the text handed to %s was not tested to consist of digits only: the standard parser also accepts a leading `+` (and `-` for signed types), '
+                    'so an escape such as "\\x+1" is taken for a valid one' % name.rsplit('::', 1)[-1], f.loc(t.get('sp')))
+    if n == 0:
+        r.ok('no integer parse of program text in the crate (escapes are decoded digit by digit)')
